@@ -18,6 +18,7 @@ import (
 	"testing"
 	"time"
 
+	"git.arvados.org/arvados.git/lib/dispatchcloud/container"
 	"git.arvados.org/arvados.git/lib/dispatchcloud/test"
 	"git.arvados.org/arvados.git/lib/dispatchcloud/worker"
 	"git.arvados.org/arvados.git/sdk/go/arvados"
@@ -166,10 +167,60 @@ func (p *verifC16Pool) StartContainer(it arvados.InstanceType, ctr arvados.Conta
 	return ok
 }
 
+// recording wrapper around a real worker.Pool (op "rqp"): every answer comes from the production
+// bookkeeping code
+type verifC16RealPool struct {
+	*worker.Pool
+	log *verifC16Log
+}
+
+func (p *verifC16RealPool) Create(it arvados.InstanceType) bool {
+	ok := p.Pool.Create(it)
+	p.log.add("c%d=%d", verifC16TypeNum(it), verifC16B(ok))
+	return ok
+}
+func (p *verifC16RealPool) ForgetContainer(uuid string) {
+	p.log.add("forget%d", verifC16UUIDNum(uuid))
+	p.Pool.ForgetContainer(uuid)
+}
+func (p *verifC16RealPool) KillContainer(uuid, reason string) bool {
+	r := p.Pool.KillContainer(uuid, reason)
+	tag := "k?"
+	switch reason {
+	case "about to lock":
+		tag = "kl"
+	case "about to start":
+		tag = "ks"
+	}
+	p.log.add("%s%d=%d", tag, verifC16UUIDNum(uuid), verifC16B(r))
+	return r
+}
+func (p *verifC16RealPool) Shutdown(it arvados.InstanceType) bool {
+	p.log.add("d%d", verifC16TypeNum(it))
+	return p.Pool.Shutdown(it)
+}
+func (p *verifC16RealPool) StartContainer(it arvados.InstanceType, ctr arvados.Container) bool {
+	ok := p.Pool.StartContainer(it, ctr)
+	p.log.add("s%d.%d=%d", verifC16TypeNum(it), verifC16UUIDNum(ctr.UUID), verifC16B(ok))
+	return ok
+}
+
 // recording queue
 type verifC16Queue struct {
 	*test.Queue
 	log *verifC16Log
+	// uuids whose state changes Queued -> Locked right after the pass has taken its snapshot
+	// (flag 'c': e.g. a lockContainer goroutine of the previous pass completing)
+	changed []string
+}
+
+func (q *verifC16Queue) Entries() (map[string]container.QueueEnt, time.Time) {
+	ents, t := q.Queue.Entries()
+	for _, uuid := range q.changed {
+		q.Queue.Lock(uuid)
+	}
+	q.changed = nil
+	return ents, t
 }
 
 func (q *verifC16Queue) Lock(uuid string) error {
@@ -201,9 +252,10 @@ func verifC16Case(line string) (out string) {
 		}
 	}()
 	f := strings.Split(line, " ")
-	if len(f) != 4 || f[0] != "rq" {
+	if len(f) != 4 || (f[0] != "rq" && f[0] != "rqp") {
 		return "bad-op"
 	}
+	real := f[0] == "rqp"
 	qc := strings.Split(f[1], ":")
 	if len(qc) != 2 {
 		return "bad-op"
@@ -212,6 +264,16 @@ func verifC16Case(line string) (out string) {
 	canCreate, err2 := strconv.Atoi(qc[1])
 	if err1 != nil || err2 != nil || quota < 0 || canCreate < 0 {
 		return "bad-op"
+	}
+	if real && quota != 0 && quota != 99 {
+		// the real pool's AtQuota() is a time window, not a count
+		return "bad-op"
+	}
+	spec := worker.VerifC16PoolSpec{Running: map[string]int{}}
+	spec.AtQuota = quota == 0
+	spec.Throttled = canCreate == 0
+	if canCreate != 99 {
+		spec.MaxCreateOps = canCreate
 	}
 	log := &verifC16Log{}
 	pool := &verifC16Pool{
@@ -228,7 +290,7 @@ func verifC16Case(line string) (out string) {
 	if f[2] != "-" {
 		for id, s := range strings.Split(f[2], ",") {
 			p := strings.Split(s, ":")
-			if len(p) != 3 || len(p[2]) != 1 || !strings.Contains("ifsx", p[2]) {
+			if len(p) != 3 || len(p[2]) != 1 || !strings.Contains("ifsx", p[2]) || (real && p[2] != "i") {
 				return "bad-op"
 			}
 			idle, err1 := strconv.Atoi(p[0])
@@ -240,8 +302,12 @@ func verifC16Case(line string) (out string) {
 			pool.idle[it] = idle
 			pool.unalloc[it] = idle + boot
 			pool.mode[it] = p[2][0]
+			spec.Types = append(spec.Types, it)
+			spec.Idle = append(spec.Idle, idle)
+			spec.Booting = append(spec.Booting, boot)
 		}
 	}
+	var opInProgress, changed []string
 	queue := &test.Queue{
 		ChooseType: func(ctr *arvados.Container) (arvados.InstanceType, error) {
 			return verifC16Type(ctr.RuntimeConstraints.VCPUs - 1), nil
@@ -278,8 +344,20 @@ func verifC16Case(line string) (out string) {
 					switch c {
 					case 'r':
 						pool.running[uuid] = time.Time{}
+						if real && ty >= len(spec.Types) {
+							return "bad-op"
+						}
+						spec.Running[uuid] = ty
 					case 'k':
+						if real {
+							// a real pool answers KillContainer = true only for a container it reports in Running()
+							return "bad-op"
+						}
 						pool.linger[uuid] = true
+					case 'o':
+						opInProgress = append(opInProgress, uuid)
+					case 'c':
+						changed = append(changed, uuid)
 					default:
 						return "bad-op"
 					}
@@ -294,9 +372,35 @@ func verifC16Case(line string) (out string) {
 		}
 	}
 	queue.Update()
+	var wpool WorkerPool = pool
+	release := func() {}
+	if real {
+		for _, ctr := range queue.Containers {
+			if ctr.RuntimeConstraints.VCPUs > len(spec.Types) {
+				// a container type the pool does not know
+				return "bad-op"
+			}
+		}
+		rp, rel := worker.VerifC16NewPool(spec)
+		wpool, release = &verifC16RealPool{Pool: rp, log: log}, rel
+	}
+	// settle: goroutines left over from earlier cases (timers, notifications) must be gone
 	base := runtime.NumGoroutine()
-	sch := New(verifC16Ctx, &verifC16Queue{Queue: queue, log: log}, pool, nil, time.Millisecond, time.Millisecond)
+	for stable := 0; stable < 3; {
+		time.Sleep(20 * time.Microsecond)
+		if n := runtime.NumGoroutine(); n == base {
+			stable++
+		} else {
+			base, stable = n, 0
+		}
+	}
+	sch := New(verifC16Ctx, &verifC16Queue{Queue: queue, log: log, changed: changed}, wpool, nil, time.Millisecond, time.Millisecond)
+	for _, uuid := range opInProgress {
+		// another operation (lock/cancel/unlock of an earlier pass) on this uuid is still in progress
+		sch.uuidOp[uuid] = "verif"
+	}
 	sch.runQueue()
+	release()
 	// lockContainer runs in goroutines spawned by runQueue: wait for them
 	deadline := time.Now().Add(5 * time.Second)
 	for runtime.NumGoroutine() > base {
